@@ -232,9 +232,13 @@ for az in (("x", "y"), ("rho", "phi")):
             geo = list(az) + ([lon] if lon else []) + ([tmp] if tmp else [])
             dim = len(geo)
             ref = ak.zip({g: vals[g] for g in geo}, with_name=f"Momentum{dim}D")
-            for g in geo:
-                for syn in SYN.get(g, []):
-                    names = [syn if q == g else q for q in geo]
+            combos = [(syn, [syn if q == g else q for q in geo]) for g in geo for syn in SYN.get(g, [])]
+            for i_ in range(3):          # every coordinate momentum-spelled at once: (px, py, pz, E), (pt, phi, eta, mass), ...
+                nm_ = [SYN[q][i_ %% len(SYN[q])] if q in SYN else q for q in geo]
+                if sum(a_ != b_ for a_, b_ in zip(nm_, geo)) >= 2 and all(nm_ != c_[1] for c_ in combos):
+                    combos.append((nm_[0], nm_))
+            for syn, names in combos:
+                for _once in (0,):
                     arr = ak.zip({nm: vals[q] for nm, q in zip(names, geo)}, with_name=f"Momentum{dim}D")
                     jag = ak.unflatten(arr, [2, 0, 1])
                     for rd in READ:
@@ -251,8 +255,8 @@ for az in (("x", "y"), ("rho", "phi")):
                             continue
                         if got != want or gotj != want or float(gotr) != float(want[1]):
                             bad.append(f"{syn}: Momentum{dim}D array with raw fields {names}: .{rd} = {got} (record: {float(gotr)}), with geometric fields {geo} it is {want}")
-                    # two-step: a single-vector operation on the raw-spelled array, then read the RESULT (it may carry stale raw-spelled fields
-                    # next to the fresh coordinates - the known Awkward finding - but every reader must still give the fresh value)
+                    # two-step: a single-vector operation on the raw-spelled array, then read the RESULT (no stale raw-spelled field may survive
+                    # next to the fresh coordinates, and every reader must give the fresh value)
                     OPS = [("v * 3", lambda v: v * 3), ("3 * v", lambda v: 3 * v), ("-v", lambda v: -v), ("v / 4", lambda v: v / 4), ("v.scale(-1.5)", lambda v: v.scale(-1.5)),
                            ("v.unit()", lambda v: v.unit()), ("v.rotateZ(0.3)", lambda v: v.rotateZ(0.3)), ("v + v", lambda v: v + v), ("v.to_xy()", lambda v: v.to_xy()),
                            ("v.to_rhophi()", lambda v: v.to_rhophi())]
@@ -276,7 +280,8 @@ for az in (("x", "y"), ("rho", "phi")):
                         dr = 2 if isinstance(rr, vector.Vector2D) else 3 if isinstance(rr, vector.Vector3D) else 4
                         da = 2 if isinstance(ra, vector.Vector2D) else 3 if isinstance(ra, vector.Vector3D) else 4 if isinstance(ra, vector.Vector4D) else 0
                         if da != dr:
-                            continue          # dimension decided from literal field names: the known finding awkward-raw-momentum-fields (C18)
+                            bad.append(f"{syn}: {oname} on a Momentum{dim}D array with raw fields {names} is {da}D; with geometric fields {geo} it is {dr}D")
+                            continue
                         for rd in ["x", "y", "phi", "pt"] + (["z", "mag"] if dr >= 3 else []) + (["t", "mass"] if dr == 4 else []):
                             n += 1
                             try:
@@ -309,7 +314,8 @@ for az in (("x", "y"), ("rho", "phi")):
                             d1r = 2 if isinstance(r1, vector.Vector2D) else 3 if isinstance(r1, vector.Vector3D) else 4
                             d1a = 2 if isinstance(a1, vector.Vector2D) else 3 if isinstance(a1, vector.Vector3D) else 4 if isinstance(a1, vector.Vector4D) else 0
                             if d1a != d1r:
-                                continue          # known finding awkward-raw-momentum-fields: the intermediate result already has the wrong dimension
+                                bad.append(f"{syn}: {o1} on a Momentum{dim}D array with raw fields {names} is {d1a}D; with geometric fields {geo} it is {d1r}D")
+                                continue
                             for o2, f2 in P2:
                                 try:
                                     rr = f2(r1)
@@ -323,7 +329,8 @@ for az in (("x", "y"), ("rho", "phi")):
                                 dr = 2 if isinstance(rr, vector.Vector2D) else 3 if isinstance(rr, vector.Vector3D) else 4
                                 da = 2 if isinstance(ra, vector.Vector2D) else 3 if isinstance(ra, vector.Vector3D) else 4 if isinstance(ra, vector.Vector4D) else 0
                                 if da != dr:
-                                    continue      # known finding awkward-raw-momentum-fields (dimension decided from literal field names)
+                                    bad.append(f"{syn}: ({o1} then {o2}) on a Momentum{dim}D array with raw fields {names} is {da}D; with geometric fields {geo} it is {dr}D")
+                                    continue
                                 for rd in ["x", "y"] + (["z"] if dr >= 3 else []) + (["t", "tau", "E", "mass"] if dr == 4 else []):
                                     n += 1
                                     try:
